@@ -3,6 +3,7 @@ package main
 import (
 	"encoding/json"
 	"fmt"
+	gotypes "go/types"
 	"math/big"
 	"strings"
 	"time"
@@ -62,7 +63,7 @@ func c20Shape(r *Run, p *ssax.Program, bCaps, bRounds, bOracles, bSteps int) {
 		r.Infra("validateFriProofShape has %d parameters, harness expects 3", len(f.Params))
 		return
 	}
-	bound := func(path string) (int, uint64) {
+	bound := func(path string, _ gotypes.Type) (int, uint64) {
 		switch {
 		case strings.HasSuffix(path, ".CommitPhaseMerkleCaps"):
 			return bCaps + 1, uint64(bCaps + 1)
